@@ -548,9 +548,107 @@ def directed(ctx):
     modgen.cleanup()
 
 
+REGISTRY_SRC = modgen.DS_HEADER + '''
+import ast
+from typing import Iterable
+from func_adl import func_adl_callable
+LOG = []
+def processor(version):
+    def process(s, a):
+        LOG.append((version, ast.unparse(a)))
+        return s.MetaData({"cb": version}), ast.Call(func=ast.Name(id="calib_" + version, ctx=ast.Load()), args=a.args, keywords=[])
+    return process
+class Jet:
+    def pt(self) -> float: ...
+class Evt:
+    def met(self) -> float: ...
+    def jets(self) -> Iterable[Jet]: ...
+# the declaration of a notebook cell / a reloaded module: run again it gives the same name a new function object and a new processor
+def declare_a(k):
+    @func_adl_callable(processor("a%d" % k))
+    def calibrated_c09(pt: float, scale: float = 1.0 + k / 100) -> float: return pt * scale
+    return calibrated_c09
+def declare_b(k):
+    @func_adl_callable(processor("b%d" % k))
+    def smeared_c09(pt: float, width: float = 2.0 + k / 100) -> float: ...
+    return smeared_c09
+def q_a(ds, calibrated_c09): return ds.Select(lambda e: e.jets().Select(lambda j: calibrated_c09(j.pt())))
+def q_a_top(ds, calibrated_c09): return ds.Select(lambda e: calibrated_c09(e.met()))
+def q_a_alias(ds, fn): return ds.Select(lambda e: e.jets().Select(lambda j: fn(j.pt())))
+def q_b(ds, smeared_c09): return ds.Select(lambda e: e.jets().Select(lambda j: smeared_c09(j.pt())))
+def q_b_text(ds, unused): return ds.Select("lambda e: e.jets().Select(lambda j: smeared_c09(j.pt()))")
+'''
+
+
+def registry_history(ctx, nhist=16):
+    """the registry of func_adl_callable functions has a history of its own: a name declared again (a notebook cell run twice, a module
+    reloaded) stands for the new function and its new processor, reset_global_functions() empties it, declarations after a reset count.
+    Queries from python lambdas in a file (the capture pass decides between 'registered function' and 'helper to paste') and from text."""
+    from func_adl.type_based_replacement import reset_global_functions
+
+    m = modgen.load(REGISTRY_SRC, "c09r")
+    for h in range(nhist):
+        rnd = random.Random(ctx.seed * 7177 + ctx.shard * 131 + h)
+        reset_global_functions()
+        cur = {"a": None, "b": None}  # what is registered now: (function object, version, default)
+        k = 0
+        trace = []
+        for step in range(rnd.randint(6, 16)):
+            r = rnd.random() if step else 0.0
+            if r < 0.27:
+                k += 1
+                which = rnd.choice("ab")
+                fn = (m.declare_a if which == "a" else m.declare_b)(k)
+                cur[which] = (fn, f"{which}{k}", (1.0 if which == "a" else 2.0) + k / 100)
+                trace.append(f"declare {which}{k}")
+                continue
+            if r < 0.33:
+                reset_global_functions()
+                cur = {"a": None, "b": None}
+                trace.append("reset_global_functions()")
+                continue
+            which = rnd.choice("ab")
+            if cur[which] is None:
+                continue
+            fn, version, dflt = cur[which]
+            qname = rnd.choice(["q_a", "q_a_top", "q_a_alias"] if which == "a" else ["q_b", "q_b_text"])
+            trace.append(f"{qname}({version})")
+            del m.LOG[:]
+            w = {"registry_history": True}
+            ctx.case(f"registry-history:{h}:{step}:{qname}", True)
+            ctx.count("registry-history-queries")
+            try:
+                s = getattr(m, qname)(m.DS(m.Evt), fn)
+            except Exception as e:
+                ctx.violation(f"registry-history:exc:{type(e).__name__}", f"{' ; '.join(trace)}: {type(e).__name__}: {str(e)[:200]}", w)
+                break
+            text = astx.unparse(s.query_ast)
+            fired = [v for v, _ in m.LOG]
+            if fired != [version]:
+                ctx.violation("registry-history:processor-of-the-function-in-force-not-run-once", f"history {' ; '.join(trace)}: processors run {m.LOG}, the function in force is {version}: {text[:200]}", w)
+                break
+            node, chain = s.query_ast.args[0], []
+            while isinstance(node, ast.Call) and isinstance(node.func, ast.Name) and node.func.id == "MetaData":
+                chain.append(ast.literal_eval(node.args[1]).get("cb"))
+                node = node.args[0]
+            if chain != [version]:
+                ctx.violation("registry-history:metadata-not-on-the-source-chain", f"history {' ; '.join(trace)}: MetaData upstream {chain}, expected [{version!r}]: {text[:200]}", w)
+                break
+            arg = "e.met()" if qname == "q_a_top" else "j.pt()"
+            if f"calib_{version}({arg}, {dflt!r})" not in text:
+                ctx.violation("registry-history:emitted-call-site-differs", f"history {' ; '.join(trace)}: expected calib_{version}({arg}, {dflt!r}) in {text[:240]}", w)
+                break
+    reset_global_functions()
+    modgen.unload(m)
+    modgen.cleanup()
+    ctx.count("registry-histories", nhist)
+
+
 def shard_main(ctx):
     from func_adl import EventDataset
 
+    if ctx.shard in (0, 2, 4):
+        registry_history(ctx)
     if ctx.shard == 0:
         directed(ctx)
 
@@ -573,6 +671,9 @@ def shard_main(ctx):
 
 
 def replay(ctx, witness):
+    if "registry_history" in witness:
+        registry_history(ctx)
+        return
     if "directed" in witness:
         directed(ctx)
         return
